@@ -47,7 +47,19 @@ package channel
 //@   modifies nothing
 //@ ignore func MatchNames() gorp.Filter
 
+//@ # number of channels among the first n that still need a key
+//@ spec func specNeedKey(chs []Channel, n int) int = __ite(n <= 0, 0, specNeedKey(chs, n-1) + __ite(chs[n-1].LocalKey == 0, 1, 0))
+//@ # replacing one slot changes that number by the slot's own contribution (induction on n)
+//@ lemma needKeyUpdate(a []Channel, b []Channel, idx int, n int)
+//@   pragma induction n
+//@   requires 0 <= n && n <= len(a) && len(a) == len(b) && 0 <= idx && idx < len(a) && (forall i int :: 0 <= i && i < len(a) && i != idx ==> __eq(a[i], b[i]))
+//@   ensures  specNeedKey(b, n) == specNeedKey(a, n) - __ite(idx < n && a[idx].LocalKey == 0, 1, 0) + __ite(idx < n && b[idx].LocalKey == 0, 1, 0)
+//@ lemma needKeyBounds(a []Channel, n int)
+//@   pragma induction n
+//@   requires 0 <= n && n <= len(a)
+//@   ensures  0 <= specNeedKey(a, n) && specNeedKey(a, n) <= n
 //@ func (s *Service) retrieveExistingAndAssignKeys(ctx context.Context, tx gorp.Tx, channels *[]Channel, counter *counter, retrieveIfNameExists bool) (toCreate []Channel, err error)
+//@   use_lemma needKeyBounds
 //@   requires channels != nil && counter != nil && counter.wrap != nil
 //@   requires kv.SpecCounterVal[counter.wrap] >= 0 && kv.SpecCounterVal[counter.wrap] <= 1048575 && len(*channels) <= 1048575
 //@   ensures  err == nil ==> len(*channels) == old(len(*channels))
@@ -55,18 +67,26 @@ package channel
 //@   ensures  err == nil ==> (forall j int :: 0 <= j && j < len(toCreate) ==> int64(toCreate[j].LocalKey) == old(kv.SpecCounterVal[counter.wrap]) + int64(j) + 1)
 //@   ensures  err == nil ==> (forall j int :: 0 <= j && j < len(toCreate) ==> (toCreate[j].IsIndex ==> toCreate[j].LocalIndex == toCreate[j].LocalKey))
 //@   ensures  err == nil ==> (forall i int :: 0 <= i && i < len(*channels) ==> (*channels)[i].LocalKey != 0 && ((*channels)[i].IsIndex ==> (*channels)[i].LocalIndex == (*channels)[i].LocalKey))
-//@   # never reused (plain create): the persisted counter has advanced past every key handed out
+//@   # never reused: the persisted counter has advanced past every key handed out - on the plain path by
+//@   # exactly the number of channels, on the retrieve-or-create path by at least the number created
 //@   ensures  err == nil && !retrieveIfNameExists ==> kv.SpecCounterVal[counter.wrap] == old(kv.SpecCounterVal[counter.wrap]) + int64(old(len(*channels))) && len(toCreate) <= old(len(*channels))
+//@   ensures  err == nil ==> kv.SpecCounterVal[counter.wrap] >= old(kv.SpecCounterVal[counter.wrap]) + int64(len(toCreate))
 //@   ensures  kv.SpecCounterVal[counter.wrap] >= old(kv.SpecCounterVal[counter.wrap])
-//@   # never reused (retrieve-or-create): one key fewer is reserved only for a slot that was going to be
-//@   # created and is now taken by a stored channel (stored channels have a key) - so the reservation
-//@   # never drops below the number of slots still to be created
+//@   # stored channels have a key (what the name query returns)
+//@   assume_after "Exec(ctx, tx)" err == nil ==> (forall j int :: 0 <= j && j < len(existing) ==> existing[j].LocalKey != 0)
 //@   assert_before "incCounterBy--" (*channels)[idx].LocalKey == 0
+//@   let_after "idx := lo.IndexOf(names, e.Name)" chs0 []Channel = *channels
+//@   apply_after "(*channels)[idx] = e" needKeyUpdate(chs0, *channels, idx, len(*channels))
 //@   modifies channels, kv.SpecCounterVal
 //@   loop 0 modifies channels
 //@   loop 0 invariant len(*channels) == old(len(*channels)) && len(names) == len(*channels) && 0 <= incCounterBy && int(incCounterBy) <= len(*channels)
+//@   loop 0 invariant int(incCounterBy) >= specNeedKey(*channels, len(*channels))
+//@   loop 0 invariant forall j int :: 0 <= j && j < len(existing) ==> existing[j].LocalKey != 0
+//@   let_after "toCreate = make([]Channel, 0, incCounterBy)" chs1 []Channel = *channels
+//@   hint_after "toCreate = make([]Channel, 0, incCounterBy)" int(incCounterBy) >= specNeedKey(*channels, len(*channels))
 //@   loop 1 modifies channels
-//@   loop 1 invariant len(*channels) == old(len(*channels)) && len(toCreate) <= __ri(0)
+//@   loop 1 invariant len(*channels) == old(len(*channels)) && len(toCreate) <= __ri(0) && len(chs1) == len(*channels)
+//@   loop 1 invariant len(toCreate) == specNeedKey(chs1, __ri(0)) && (forall k int :: __ri(0) <= k && k < len(*channels) ==> __eq((*channels)[k], chs1[k]))
 //@   loop 1 invariant forall j int :: 0 <= j && j < len(toCreate) ==> toCreate[j].LocalKey == originalCounterValue + LocalKey(j) + 1 && (toCreate[j].IsIndex ==> toCreate[j].LocalIndex == toCreate[j].LocalKey)
 //@   loop 1 invariant forall k int :: 0 <= k && k < __ri(0) ==> (*channels)[k].LocalKey != 0 && ((*channels)[k].IsIndex ==> (*channels)[k].LocalIndex == (*channels)[k].LocalKey)
 
